@@ -10,8 +10,8 @@ echo "== test suite with the change"
 cargo test --workspace --offline 2>&1 | grep -E "^test result|FAILED|error(\[|:)" | sort | uniq -c
 echo "== demo with the change (must fail)"
 (cd $WT/$DEMO && cargo run --offline -q >/tmp/demo_with.log 2>&1; echo "exit=$?")
-git stash -q
+git diff > /tmp/confirm_seed_patch.diff; git apply -R /tmp/confirm_seed_patch.diff
 echo "== demo without the change (must pass)"
 (cd $WT/$DEMO && cargo run --offline -q >/tmp/demo_without.log 2>&1; echo "exit=$?")
-git stash pop -q
+git apply /tmp/confirm_seed_patch.diff
 git diff --stat | tail -1
